@@ -127,6 +127,23 @@ SCRIPTS = {
                              ["Fresh", 0, 1, [["Sp", 0], ["IdPath", 1], ["DocSet", 1, "p", typed(1)], ["Init", 0]]],
                              ["Fresh", 1, None, [["Cached", 0], ["Edit", 0, [], ["set", "a", typed(1)]], ["IdPath", 0]]],
                              ["Doc", 0]],
+    # reset() / init() / clear() through a handle whose job was removed through ANOTHER live handle: they look at the
+    # file system (reset re-creates the job) - checked exactly, not part of finding 3
+    "sibling-remove-then-reset": [["NewSession", "A"], ["OpenSp", 0, typed({"a": 0})], ["Init", 0, False],
+                                  ["OpenSp", 0, typed({"a": 0})], ["Remove", 1], ["Reset", 0], ["Len", 0], ["Contains", 0, 0],
+                                  ["OpenId", 0, "9bfd29df07674bc4aa960cf661b5acd2"], ["Remove", 0], ["Reset", 2],
+                                  ["NewSession", "A"], ["OpenId", 1, "9bfd29df07674bc4aa960cf661b5acd2"], ["Remove", 2],
+                                  ["Clear", 3], ["Init", 0, False], ["Remove", 3], ["Init", 0, False], ["Ids", 1]],
+    # a handle opened by id on a fresh Project (cache miss, state point never read): rejected assignment, then an edit
+    "byid-fresh-rejected-assignment": [["NewSession", "A"], ["OpenSp", 0, typed({"a": 0, "b": 0})], ["Init", 0, False],
+                                       ["OpenSp", 0, typed({"a": 1, "b": 0})], ["Init", 1, False], ["NewSession", "A"],
+                                       ["OpenId", 1, "7f9fb369851609ce9cb91404549393f3"],
+                                       ["Assign", 2, typed({"a": 1, "b": 0})], ["Edit", 2, [], ["set", "c", typed(0)]],
+                                       ["Sp", 2], ["IdPath", 2]],
+    # cached_statepoint / repr read before and after a re-key, through the handle and its shallow copy
+    "read-rekey-read": [["NewSession", "A"], ["OpenSp", 0, typed({"a": 0})], ["Init", 0, False], ["Copy", 0],
+                        ["Cached", 0], ["Repr", 1], ["Edit", 0, [], ["set", "a", typed(1)]], ["Cached", 0], ["Repr", 1],
+                        ["Cached", 1], ["Repr", 0], ["IdPath", 1]],
     "lifecycle-clean": [["NewSession", "A"], ["NewSession", "B"], ["OpenSp", 0, typed({"a": 0, "c": [1, 2]})],
                         ["Init", 0, False], ["DocSet", 0, "p", typed([1, {"z": None}])],
                         ["WriteFile", 0, ["sub", "x.bin"], "00ff10"], ["Sp", 0], ["Copy", 0],
@@ -234,8 +251,110 @@ def random_ops(desc, W):
             continue
         if W.handles and rng.random() < 0.12:
             # ---- composite patterns (classes of histories that single random ops rarely compose)
-            pat = rng.choice(["multikey", "mutate", "copymove", "mutate-assigned", "pickle-shared", "pickle-shared"])
-            if pat == "multikey":
+            pat = rng.choice(["multikey", "mutate", "copymove", "mutate-assigned", "pickle-shared", "pickle-shared",
+                              "sibling-remove", "sibling-remove", "byid-rejected", "byid-rejected", "read-rekey-read"])
+            if pat == "sibling-remove":
+                # two independent live handles of one job (second open_job(sp), open_job(id=...) in the same or a fresh
+                # session): the job is (re-)initialised through one, removed through the other, and then the first one
+                # - which still believes the directory exists - is used: reset / init / clear / remove / document
+                h = pick_handle(sp_safe)
+                j = W.handles[h]
+                root = os.path.relpath(j._project.path, W.root)
+                si = [i for i, r_ in enumerate(sess_root) if r_ == root][0]
+                yield ["Init", h, False]
+                if W.last_out == ["unit"]:
+                    before = len(W.handles)
+                    how = rng.random()
+                    if how < 0.4:
+                        sp = j._statepoint._to_base() if not j._statepoint_requires_init else dict(j._cached_statepoint or {})
+                        yield ["OpenSp", si, typed(sp)]
+                    elif how < 0.7:
+                        yield ["OpenId", si, W.handles[h].id]
+                    else:
+                        yield ["NewSession", root]
+                        sess_root.append(root)
+                        yield ["OpenId", len(sess_root) - 1, W.handles[h].id]
+                    if len(W.handles) > before:
+                        new_group(before)
+                        first, second = (h, before) if rng.random() < 0.6 else (before, h)
+                        if rng.random() < 0.3:
+                            yield ["DocSet", first, rng.choice(DOCKEYS), typed(rng.choice(DOCVALS))]
+                        if rng.random() < 0.3:
+                            yield ["Init", second, False]
+                        yield ["Remove", second]
+                        yield rng.choice([["Reset", first], ["Reset", first], ["Init", first, False], ["Clear", first],
+                                          ["Remove", first], ["Doc", first], ["Sp", first],
+                                          ["Edit", first, [], ["set", "b", typed(rng.choice(VALS["b"]))]]])
+                        yield rng.choice([["Contains", si, first], ["Len", si], ["Ids", si], ["Reset", second],
+                                          ["Init", second, False]])
+            elif pat == "byid-rejected":
+                # a handle obtained by id on a FRESH Project object (no persistent cache unless the history wrote one),
+                # state point never read through it; a whole assignment / update that collides with another initialised
+                # job is rejected; then a further edit through the same handle
+                h = pick_handle(sp_safe)
+                j = W.handles[h]
+                root = os.path.relpath(j._project.path, W.root)
+                si = [i for i, r_ in enumerate(sess_root) if r_ == root][0]
+                yield ["Init", h, False]
+                if W.last_out == ["unit"]:
+                    sp = j._statepoint._to_base() if not j._statepoint_requires_init else dict(j._cached_statepoint or {})
+                    k = rng.choice(KEYS)
+                    other = {**sp, k: rng.choice([v for v in VALS[k] if k not in sp or sp[k] != v])}
+                    before = len(W.handles)
+                    yield ["OpenSp", si, typed(other)]
+                    if len(W.handles) > before:
+                        new_group(before)
+                        yield ["Init", before, False]
+                    yield ["NewSession", root]
+                    sess_root.append(root)
+                    before = len(W.handles)
+                    yield ["OpenId", len(sess_root) - 1, W.handles[h].id]
+                    if len(W.handles) > before:
+                        new_group(before)
+                        g = before
+                        r2 = rng.random()
+                        if r2 < 0.15:
+                            yield ["Cached", g]
+                        elif r2 < 0.25:
+                            yield ["Sp", g]
+                        if rng.random() < 0.6:
+                            yield ["Assign", g, typed(other)]
+                        else:
+                            yield ["UpdateSp", g, typed({k: other[k]}), True]
+                        k2 = rng.choice([x for x in KEYS if x != k])
+                        yield ["Edit", g, [], ["set", k2, typed(rng.choice(VALS[k2]))]]
+                        yield rng.choice([["Sp", g], ["IdPath", g], ["Cached", g]])
+            elif pat == "read-rekey-read":
+                # cached_statepoint / repr read BEFORE a state point change, through the handle and a shallow copy, and
+                # again afterwards (anything memoised by a read must follow the re-key)
+                h = pick_handle(sp_safe)
+                if h not in orphaned:
+                    if rng.random() < 0.7:
+                        yield ["Init", h, False]
+                    before = len(W.handles)
+                    yield ["Copy", h]
+                    c = None
+                    if len(W.handles) > before:
+                        g = groups.get(h)
+                        if g is None:
+                            new_group(h)
+                            g = groups[h]
+                        groups[before] = g
+                        copies[g] = copies.get(g, 0) + 1
+                        shared.update(i for i, gg in groups.items() if gg == g)
+                        c = before
+                    readers = [x for x in (h, c) if x is not None]
+                    for x in readers:
+                        yield [rng.choice(["Cached", "Repr"]), x]
+                    k = rng.choice(KEYS)
+                    yield ["Edit", rng.choice(readers), [], ["set", k, typed(rng.choice(VALS[k]))]]
+                    if W.last_out == ["exn", "EDestinationExists"]:
+                        g = groups.get(h)
+                        dirty.update([h] + [i for i, gg in groups.items() if gg == g and g is not None])
+                    for x in readers:
+                        yield [rng.choice(["Cached", "Repr"]), x]
+                        yield ["IdPath", x]
+            elif pat == "multikey":
                 h = pick_handle(sp_safe)
                 j = W.handles[h]
                 sp = j._statepoint._to_base() if not j._statepoint_requires_init else dict(j._cached_statepoint or {})
